@@ -360,22 +360,28 @@ def hopLines (c : Cfg) : List Bytes → List (Bytes × Bytes)
   | a :: b :: t => stepEntries c a b ++ hopLines c (b :: t)
   | _ => []
 
-/-- `a, parent a, …, root` -/
-def chainUp (L : Levels) : Nat → Bytes → List Bytes
-  | 0, a => [a]
-  | f + 1, a =>
-    match par L a with
-    | some p => a :: chainUp L f p
-    | none => [a]
+/-- the tree path computed without any search: while the two ends differ, step from the deeper
+one to its parent (`dep` is a depth function; the front part grows from `a`, the back part from
+`b`) -/
+def climb {α : Type} [DecidableEq α] (par : α → Option α) (dep : α → Nat) : Nat → α → α → List α
+  | 0, a, _ => [a]
+  | f + 1, a, b =>
+    if a = b then [a]
+    else if dep b ≤ dep a then
+      match par a with
+      | some p => a :: climb par dep f p b
+      | none => [a]
+    else
+      match par b with
+      | some q => climb par dep f a q ++ [b]
+      | none => [a]
 
-def splitCommon : List Bytes → List Bytes → Option Bytes → Option Bytes × List Bytes × List Bytes
-  | x :: xs, y :: ys, lca => if x = y then splitCommon xs ys (some x) else (lca, x :: xs, y :: ys)
-  | xs, ys, lca => (lca, xs, ys)
+/-- depth of a level: number of previous-links to the root -/
+def depthOf (L : Levels) (a : Bytes) : Nat := (rootDist L L.length a).getD 0
 
-/-- the tree path computed without any search: up from `a` to the lowest common ancestor, then
-down to `b` (specification side of the driver; independent of `dfs`) -/
+/-- up from `a` to the lowest common ancestor, then down to `b` (specification side of the driver;
+independent of `dfs`) -/
 def treePath (L : Levels) (a b : Bytes) : List Bytes :=
-  match splitCommon (chainUp L L.length a).reverse (chainUp L L.length b).reverse none with
-  | (lca, ra, rb) => ra.reverse ++ lca.toList ++ rb
+  climb (par L) (depthOf L) (2 * L.length) a b
 
 end Scrapli.Priv
